@@ -11,7 +11,7 @@ def one(job):
     outs = []
     for _ in range(2 if not os.environ.get("ONCE") else 1):
         try:
-            p = subprocess.run([exe], env=env, stdout=subprocess.PIPE, stderr=subprocess.STDOUT, text=True, timeout=120)
+            p = subprocess.run([exe], env=env, stdout=subprocess.PIPE, stderr=subprocess.STDOUT, text=True, timeout=int(os.environ.get('TMO','40')))
             outs.append((p.returncode, p.stdout))
         except subprocess.TimeoutExpired as e:
             outs.append((124, "WALLTIMEOUT"))
